@@ -13,6 +13,7 @@ pub struct Session {
     pub nodes: Vec<Node>,
     pub label: HashMap<Node, usize>,
     pub ever_off: bool,
+    pub cons_on: bool,
     pub history: Vec<String>,
 }
 
@@ -38,7 +39,12 @@ impl Session {
     pub fn new() -> Self {
         let mut xot = Xot::new();
         let vocab = Vocab::standard(&mut xot);
-        Session { xot, vocab, nodes: vec![], label: HashMap::new(), ever_off: false, history: vec![] }
+        Session { xot, vocab, nodes: vec![], label: HashMap::new(), ever_off: false, cons_on: true, history: vec![] }
+    }
+
+    /// consolidation is on unless a `cons 0` request switched it off (tracked by the session)
+    pub fn xot_consolidation(&self) -> bool {
+        self.cons_on
     }
 
     pub fn live(&self) -> Vec<usize> {
@@ -154,6 +160,7 @@ impl Session {
             "cons" => {
                 let b = w[1] == "1";
                 self.xot.set_text_consolidation(b);
+                self.cons_on = b;
                 if !b {
                     self.ever_off = true;
                 }
